@@ -2,6 +2,7 @@ package c11
 
 import (
 	"fmt"
+	"math"
 	"sort"
 	"strings"
 	"testing"
@@ -65,8 +66,16 @@ func (x *gg) v() *rt.Term {
 	}
 	return rt.V(int64(x.n(0, x.nvars-1, "v")))
 }
-func (x *gg) atom() *rt.Term { return rt.A([]string{"a", "b", "c"}[x.n(0, 2, "a")]) }
+func (x *gg) atom() *rt.Term {
+	if x.p(12, "oddatom") { // one-character atoms against longer and empty ones (their order is that of their text)
+		return rt.A([]string{"", "ab", "foo", "x", "é", "zebra", "b"}[x.n(0, 6, "oa")])
+	}
+	return rt.A([]string{"a", "b", "c"}[x.n(0, 2, "a")])
+}
 func (x *gg) val(vars bool) *rt.Term {
+	if x.p(8, "extremenumber") { // integers whose difference does not fit in 64 bits; floats (all floats precede all integers)
+		return []*rt.Term{rt.I(math.MaxInt64), rt.I(math.MinInt64), rt.I(-1), rt.I(1 << 62), rt.I(-(1 << 62) - 2), rt.F(1.5), rt.F(-0.5), rt.F(1e30)}[x.n(0, 7, "xn")]
+	}
 	switch k := x.n(0, 9, "val"); {
 	case k < 4:
 		return x.atom()
